@@ -225,18 +225,56 @@ def todict_ob(prog, cls):
             if k not in tab:
                 bad.append(f"key '{k}' is not a field of {cls} (from_dict -> cls(**dict) raises unexpected kwargs)")
             elif not tab[k]["init"]:
-                pass
+                bad.append(f"key '{k}' is a derived (init=False) field of {cls}: the constructor drops it, so whatever it stands for is not reconstructed")
             else:
                 want = {f"self.{k}"} | ({"self.D"} if k == "num_dim" else set())
                 if v not in want:
                     bad.append(f"key '{k}' holds {v}, not self.{k}")
+        from .common import CACHE_FIELDS
         for name, e in tab.items():
             if e["init"] and e["default"] == "REQUIRED" and name not in keys:
                 bad.append(f"required init field '{name}' is missing from to_dict")
+            elif e["init"] and name not in keys and not (name in CACHE_FIELDS and e["default"] == "NONE"):
+                # a free parameter with a default (OneRankFactor.g) must be stored too: from_dict would silently fall back to the default;
+                # only caches that are recomputed on demand from the stored parameters may be left out
+                bad.append(f"init field '{name}' (default {e['default']}) is missing from to_dict: from_dict rebuilds the object with the default, not with the object's value")
         if bad:
             raise Refuted("; ".join(bad), anchor)
         return [], dict(keys=len(keys))
     return Ob(f"todict/{cls}", run, "to_dict keys are init fields of the class holding self.<key>; every required field is present (from_dict(to_dict()) reconstructs)", anchor, group="todict")
+
+
+def aux_equality_ob(prog):
+    """jit caches a trace per (treedef, static aux data) compared with == / hash: the static fields (callables, ints) of the library's objects must
+    compare as the values themselves.  No class of the library defines __eq__ / __ne__ / __hash__ today (dataclass-generated equality aside); a
+    user-defined one on the aux data or on a static field - e.g. callables compared by __qualname__ - makes jit silently reuse the trace that was
+    compiled for ANOTHER static value (seeded change L3-d3)."""
+    def run():
+        synth = ast.parse("class K(tuple):\n    def __eq__(s, o):\n        return True\n    def __hash__(s):\n        return 0\nclass G:\n    def f(s):\n        return 1\n")
+        def sites(tree, rel):
+            out = []
+            for c in ast.walk(tree):
+                if isinstance(c, ast.ClassDef):
+                    for f in c.body:
+                        if isinstance(f, ast.FunctionDef) and f.name in ("__eq__", "__ne__", "__hash__"):
+                            out.append(f"{rel}:{f.lineno} class {c.name} defines {f.name}")
+                        if isinstance(f, ast.Assign) and any(isinstance(t, ast.Name) and t.id in ("__eq__", "__hash__") for t in f.targets):
+                            out.append(f"{rel}:{f.lineno} class {c.name} assigns {ast.unparse(f.targets[0])}")
+            return out
+        if len(sites(synth, "synthetic")) != 2:
+            raise Undecided("aux-equality rule: synthetic example mismatch")
+        bad, n = [], 0
+        for mod, tree in prog.modules.items():
+            n += sum(1 for c in ast.walk(tree) if isinstance(c, ast.ClassDef))
+            bad += sites(tree, prog.relpath(mod))
+        if n < 20:
+            raise Undecided(f"only {n} classes scanned")
+        if bad:
+            raise Refuted("; ".join(bad[:3]) + ": user-defined equality / hash on library objects or on pytree aux data changes what jit considers the same "
+                          "static configuration", bad[0].split(":")[0] + "::" + bad[0].split(" class ")[1].split(" ")[0], bad)
+        return [], dict(classes=n)
+    return Ob("pytree/aux-equality", run, "no class of the library defines __eq__ / __ne__ / __hash__: pytree aux data and static fields compare as the values themselves "
+              "(jit cache keys)", "gaussian_toolbox/utils/dataclass.py::register_dataclass_type_with_jax_tree_util", group="pytree")
 
 
 # ---------------------------------------------------------------- 6. trace safety
@@ -468,7 +506,7 @@ def where_guard_ob(prog):
 
 def obligations(tier):
     prog = model.load()
-    obs = [api_resolution_ob(prog), while_loop_ob(prog), trace_synthetic_ob(), where_guard_ob(prog), gradient_flow_ob(prog)]
+    obs = [api_resolution_ob(prog), while_loop_ob(prog), trace_synthetic_ob(), where_guard_ob(prog), gradient_flow_ob(prog), aux_equality_ob(prog)]
     for cls in dataclasses_of(prog):
         obs.append(closure_ob(prog, cls))
         obs.append(idempotence_ob(prog, cls))
